@@ -1,0 +1,30 @@
+//go:build verif
+
+package remove_fields
+
+// Contracts for the verification harness under /verif (comment-only file).
+//
+// C18: remove_fields looks up exactly the configured (already de-duplicated,
+// see cfg.ParseNestedFields) paths, each once and in order, and removes what the
+// lookup returns; it calls nothing else on the event, and leaves non-object roots
+// alone.  What Dig and Suicide do inside insane-json is outside these contracts.
+
+//@ func (*Plugin).Do
+//@   ghost isobj bool = false
+//@   ghost ndig int = 0
+//@   ghost nrem int = 0
+//@   ensures result == pipeline.ActionPass
+//@   ensures isobj ==> ndig == len(p.fieldPaths) && nrem == len(p.fieldPaths)
+//@   ensures !isobj ==> ndig == 0 && nrem == 0
+//@   loop 1 invariant isobj && ndig == rangeindex + 1 && nrem == rangeindex + 1 && rangeindex < len(p.fieldPaths)
+//@   callee IsObject() (r)
+//@     pure
+//@     set isobj := r
+//@   callee Dig(path) (n)
+//@     requires path == p.fieldPaths[rangeindex] && ndig == rangeindex && nrem == rangeindex
+//@     pure
+//@     set ndig := ndig + 1
+//@   callee Suicide()
+//@     requires ndig == rangeindex + 1 && nrem == rangeindex
+//@     preserves Plugin, []string
+//@     set nrem := nrem + 1
